@@ -851,8 +851,8 @@ func cmdCheck(args []string) int {
 	ev := Evidence{PropertyId: prop, Tier: tier, Seed: base, Level: cfg.Level, WallS: wall, Violations: newViolations,
 		Assumptions: []string{
 			"sampling, not enumeration: a clean batch is evidence, not proof",
-			"the harness-defined schema (8 stores wiring every index / constraint / link kind once) stands for all schemas",
-			"bbolt's own transaction atomicity and durability are trusted; process-crash images only, no power-loss semantics",
+			"the harness-defined schema (11 stores wiring every index / constraint / link kind, with order- and allocation-only variants drawn per run) stands for all schemas",
+			"bbolt's own transaction atomicity and durability are trusted; failed commits and clean reopen are injected, crash images and power-loss semantics are not (no listed property quantifies over crash points)",
 			"the lock model mirrors DbImpl.reloadLock and bbolt's writer lock by hand",
 		},
 		Coverage: map[string]any{
